@@ -60,6 +60,7 @@ type c15Case struct {
 	CloseErr string  `json:"close_err,omitempty"`
 	Table    scanOut `json:"table"`
 	Meta     metaOut `json:"meta"`
+	IdxPay   [][]byte `json:"-"`
 	IndexLen int     `json:"index_len"`
 	DataLen  int     `json:"data_len"`
 	OpenErr  string  `json:"open_err,omitempty"`
@@ -111,6 +112,7 @@ func (c *c15Case) Exec() {
 		c.CloseErr = classifyErr(err)
 	}
 	c.IndexLen, c.DataLen = len(readFileOr(dir, sstables.IndexFileName)), len(readFileOr(dir, sstables.DataFileName))
+	c.IdxPay = indexEntries(dir)
 	r, err := sstables.NewSSTableReader(sstables.ReadBasePath(dir), sstables.ReadWithKeyComparator(skiplist.BytesComparator{}))
 	if err != nil {
 		c.OpenErr = classifyErr(err)
@@ -181,7 +183,38 @@ func (c *c15Case) Oracle() (bool, string) {
 	return true, ""
 }
 
-func (c *c15Case) Sx() string { return "" }
+func (c *c15Case) Sx() string {
+	if c.Fatal != "" || c.OpenErr != "" || c.CloseErr != "" {
+		return ""
+	}
+	var calls, errs []string
+	var vals [][]byte
+	for _, call := range c.Calls {
+		f := 0
+		if call.FailData {
+			f = 1
+		} else if call.FailIdx {
+			f = 2
+		}
+		calls = append(calls, sxL(sxI(f), sxB(call.K), sxOBn(call.V, call.Nil)))
+		e := 0
+		if call.Err == "Rejected" {
+			e = 1
+		} else if call.Err != "" {
+			e = 2
+		}
+		errs = append(errs, sxI(e))
+		if !call.Nil {
+			v := call.V
+			if v == nil {
+				v = []byte{}
+			}
+			vals = append(vals, v)
+		}
+	}
+	return sxL(sxI(c.Opts.IndexComp), sxI(c.Opts.DataComp), compTable(c.Opts.IndexComp, c.IdxPay), compTable(c.Opts.DataComp, vals),
+		sxList(calls), sxList(errs), c.Table.sx(), sxMeta(c.Meta), sxI(c.IndexLen), sxI(c.DataLen))
+}
 func (c *c15Case) Nontrivial() bool {
 	ok, bad := 0, 0
 	for _, call := range c.Calls {
